@@ -171,8 +171,24 @@ theorem C13_preload (k : MemKind) (s s' : MemState) (a : Addr) (data : List Byte
     (h : preload k s a data = (true, s')) : s' = runOps (cfgNow k) s (copyOps a data) :=
   copy_ok k data s a s' h
 
+/-- loads compose: a second file loaded into the same machine is placed by the same rule on the memory as the first
+    load left it — its payload bytes (zero bytes included) replace whatever was there, nothing else changes -/
+theorem C13_second_load (k : MemKind) (s s1 s2 : MemState) (lo1 hi1 lo2 hi2 : Byte) (p1 p2 : List Byte)
+    (a1 l1 a2 l2 : Nat) (hp1 : p1 ≠ []) (hp2 : p2 ≠ []) (hl1 : p1.length ≤ 65535) (hl2 : p2.length ≤ 65535)
+    (h1 : loadNow k s (lo1 :: hi1 :: p1) = (.ok a1 l1, s1))
+    (h2 : loadNow k s1 (lo2 :: hi2 :: p2) = (.ok a2 l2, s2)) :
+    s2 = runOps (cfgNow k) (runOps (cfgNow k) s (copyOps (BitVec.ofNat 16 a1) p1)) (copyOps (BitVec.ofNat 16 a2) p2) ∧
+    a2 = hi2.toNat * 256 + lo2.toNat ∧ l2 = p2.length := by
+  obtain ⟨_, _, e1⟩ := C13_place k s s1 lo1 hi1 p1 a1 l1 hp1 hl1 h1
+  obtain ⟨ha, hl, e2⟩ := C13_place k s1 s2 lo2 hi2 p2 a2 l2 hp2 hl2 h2
+  exact ⟨by rw [e2, e1], ha, hl⟩
+
 -- non-vacuity: a 4-byte payload at $3FFE in a 16K memory: the third byte cannot be stored
 example : (loadNow (.linear 16384) (initState (.linear 16384)) [0xFE, 0x3F, 1, 2, 3, 4]).1 = .error := by decide
 example : (loadNow (.linear 16384) (initState (.linear 16384)) [0xFC, 0x3F, 1, 2, 3, 4]).1 = .ok 0x3FFC 4 := by decide
+
+-- non-vacuity of C13_second_load: a second file with zero bytes over the first one
+example : (loadNow (.linear 16384) (loadNow (.linear 16384) (initState (.linear 16384)) [0x00, 0x10, 1, 2, 3]).2 [0x01, 0x10, 0, 0]).1
+    = .ok 0x1001 2 := by decide
 
 end Verif.Props.C13
